@@ -433,6 +433,17 @@ def run(ctx, R, tier):
                 why = "the _RemoteMethod built at %s is %s: it keeps the retry budget of the moment it was created, a later `proxy._pyroMaxRetries = 0` " \
                       "does not stop it from re-sending (and re-executing) a call" % (g.loc(c), "stored (`%s`)" % unparse(enclosing_stmt(kept[0])) if kept else "not simply returned")
             R.check(ok, "C03-R6", "%s|remote-method-not-remembered" % g.qualname.split("Pyro5.client.")[-1], "a _RemoteMethod is built per access and handed out, never stored", g.loc(c), why)
+            # what the retry loop re-invokes must be re-invocable: Proxy._pyroInvoke builds the request anew from the arguments it is given each time. Any other sender
+            # (BatchProxy._pyroInvoke empties its queue in a finally - the second attempt submits an EMPTY batch and the call returns normally without its results)
+            # makes "retried" mean "something else was sent"
+            snd = c.args[0] if c.args else None
+            oks = snd is not None and ((g.cls is not None and g.cls.qualname == "Pyro5.client.Proxy" and unparse(snd) == "self._pyroInvoke") or
+                                       (g.cls is not None and g.cls.qualname == "Pyro5.client._RemoteMethod" and isinstance(snd, ast.Attribute) and snd.attr.endswith("__send")))
+            R.check(oks, "C03-R6", "%s|retry-loop-resends-through-Proxy._pyroInvoke" % g.qualname.split("Pyro5.client.")[-1],
+                    "the sender handed to the retry loop is the proxy's own _pyroInvoke (the request is rebuilt from the same arguments on every attempt)", g.loc(c),
+                    "`%s` puts `%s` under the retry loop of _RemoteMethod: that function is not written to be called twice for one call (a batch proxy clears its queued calls after the "
+                    "first attempt, also a failed one) - after a connection error the retry sends something else and the call RETURNS, without having run its methods or without their results"
+                    % (unparse(c, 80), unparse(snd, 50) if snd is not None else "nothing"))
     if n_ctor < 2:
         raise AnalysisError("client.py: fewer _RemoteMethod constructions than expected (%d)" % n_ctor)
 
@@ -471,16 +482,19 @@ def run(ctx, R, tier):
 
     # streamed results: a stream's table key is made fresh per stream; two streams of one conversation must not answer each other's item requests (shared with C10-R3)
     from ..report import Rules
+    from ..report import run_shared as _run_shared
     from . import c10
     R10 = Rules("C10")
     try:
-        c10.run(ctx, R10, tier)
+        _run_shared(ctx, c10, R10, tier)
     except AnalysisError as _shared_x:
         # the other property's own anchors are gone on this tree: its check reports that; what it produced before is still shared
         R.note("obligations shared from C10 are incomplete on this tree: %s" % _shared_x)
     for o in R10.obs:
         if o.key == "C10-R3|_streamResponse|fresh-id":
             R.add("C03-R5", "_streamResponse|fresh-id", o.desc + " (an item request must never be answered from another call's stream)", o.ok, o.loc, o.detail)
+        elif o.key == "C10-R1|get_next_stream_item|returns-only-what-next-produced":
+            R.add("C03-R5", "get_next_stream_item|answers-with-this-call's-item", o.desc + " (an item request is answered with its own item, never with the reply to an earlier request)", o.ok, o.loc, o.detail)
 
 
 def _inside_try(node, t):
